@@ -878,9 +878,7 @@ func (c *Conn) dispatch(fr *FrameHeader) bool {
 	}
 
 	if err == nil {
-		// END_STREAM only exists on DATA and HEADERS; on any other frame type
-		// the bit is undefined and must be ignored (RFC 7540 4.1).
-		if (fr.Type() == FrameData || fr.Type() == FrameHeaders) && fr.Flags().Has(FlagEndStream) {
+		if c.endsStream(fr) {
 			c.finish(r, fr.Stream(), nil)
 		}
 	} else {
@@ -901,6 +899,22 @@ func (c *Conn) dispatch(fr *FrameHeader) bool {
 	}
 
 	return errors.Is(err, FlowControlError)
+}
+
+// endsStream reports whether fr is the last frame of its stream. END_STREAM
+// only exists on DATA and HEADERS; on any other frame type the bit is undefined
+// and must be ignored (RFC 7540 4.1). On HEADERS it says that the header block
+// is the last thing on the stream, and the block may go on in CONTINUATION
+// frames: the response is complete when the block is (RFC 7540 8.1).
+func (c *Conn) endsStream(fr *FrameHeader) bool {
+	switch fr.Type() {
+	case FrameData:
+		return fr.Flags().Has(FlagEndStream)
+	case FrameHeaders, FrameContinuation:
+		return c.block.endStream && fr.Flags().Has(FlagEndHeaders)
+	}
+
+	return false
 }
 
 // drained reports whether the server has sent GOAWAY and every request it
@@ -977,6 +991,9 @@ type headerBlock struct {
 	// regularSeen says a regular field has been decoded, after which a
 	// pseudo-header is malformed.
 	regularSeen bool
+	// endStream says the HEADERS frame that opened the block carried
+	// END_STREAM. The stream ends with the block, not with that frame.
+	endStream bool
 }
 
 // open returns the bytes to decode for fr: what the previous frame of the block
@@ -986,6 +1003,7 @@ func (hb *headerBlock) open(fr *FrameHeader) []byte {
 		hb.carry = hb.carry[:0]
 		hb.fields = 0
 		hb.regularSeen = false
+		hb.endStream = fr.Flags().Has(FlagEndStream)
 	}
 
 	b := append(hb.carry, fr.Body().(FrameWithHeaders).Headers()...)
